@@ -1082,3 +1082,37 @@ pub fn c10_table(rt: &tokio::runtime::Runtime, keep_log: bool) -> Vec<(String, V
     }
     out
 }
+
+/// max_size is honoured far away from the small sizes the histories use: a pool of `n` slots takes exactly `n`
+/// objects (try_add and add), refuses the next one, and gives all of them back.
+pub fn big_pool(n: usize) -> Vec<Violation> {
+    use deadpool::unmanaged::Pool as UPool;
+    let mut v = Vec::new();
+    let pool: UPool<usize> = UPool::new(n);
+    for i in 0..n {
+        let r = if i % 2 == 0 { pool.try_add(i).map_err(|(_, e)| e) } else { crate::th::poll_once(pool.add(i)).unwrap_or(Err((i, deadpool::unmanaged::PoolError::Timeout))).map_err(|(_, e)| e) };
+        if let Err(e) = r {
+            v.push(Violation { prop: "C05", oracle: "try_add_refused_with_room", msg: format!("pool with max_size {}: object number {} was refused with {:?} (status {:?})", n, i + 1, e, pool.status()) });
+            return v;
+        }
+    }
+    let st = pool.status();
+    if st.max_size != n || st.size != n || st.available != n {
+        v.push(Violation { prop: "C05", oracle: "status_at_rest", msg: format!("pool with max_size {} and {} objects reports {:?}", n, n, st) });
+    }
+    if pool.try_add(n).is_ok() {
+        v.push(Violation { prop: "C05", oracle: "add_over_max_size", msg: format!("pool with max_size {} accepted object number {}", n, n + 1) });
+    }
+    let mut got = 0;
+    while let Ok(o) = pool.try_remove() {
+        let _ = o;
+        got += 1;
+        if got > n + 1 {
+            break;
+        }
+    }
+    if got != n {
+        v.push(Violation { prop: "C05", oracle: "objects_lost", msg: format!("{} objects were added, {} could be removed", n, got) });
+    }
+    v
+}
